@@ -219,7 +219,12 @@ func runC10(script *Scenario, d C10Disturbance) (*c10Result, error) {
 			uniform = false
 		}
 	}
-	for round := 0; round < 2 && ok; round++ {
+	// (a workload controller keeps reporting: rounds go on while a round still had something to report, within a bound)
+	for round := 0; round < 6 && ok; round++ {
+		rvBefore := r.W.Store.RV()
+		if round >= 2 && !uniform {
+			break
+		}
 		if uniform {
 			for _, k := range r.W.ListKeys(engine.WidgetGroup, "Widget") {
 				r.SetWidgetStatus(k, WidgetStates[mod(common, len(WidgetStates))])
@@ -238,8 +243,12 @@ func runC10(script *Scenario, d C10Disturbance) (*c10Result, error) {
 				return nil, err
 			}
 		}
+		reported := r.W.Store.RV() != rvBefore
 		if _, ok, err = r.Quiesce(); err != nil {
 			return nil, err
+		}
+		if round >= 1 && !reported {
+			break
 		}
 	}
 	res.quiescent = ok
